@@ -17,6 +17,7 @@ package redis
 import (
 	"errors"
 	"fmt"
+	"math"
 	"regexp"
 	"strconv"
 	"strings"
@@ -52,6 +53,9 @@ func nextFloatArgument(cmd string, name string, args Arguments) (float64, error)
 	score, err := strconv.ParseFloat(str, 64)
 	if err != nil {
 		return 0, newMissingArgumentError(cmd, name, err)
+	}
+	if math.IsNaN(score) {
+		return 0, newInvalidArgumentError(cmd, name, errors.New("not a number"))
 	}
 	return score, nil
 }
@@ -132,6 +136,9 @@ func nextSetExArguments(cmd string, args Arguments) (string, int, string, error)
 	if seconds < 1 {
 		return "", 0, "", newInvalidArgumentError(cmd, "seconds", fmt.Errorf(errorShouldBeGreaterThanInt, "argument", 0))
 	}
+	if int64(seconds) > math.MaxInt64/int64(time.Second) {
+		return "", 0, "", newInvalidArgumentError(cmd, "seconds", errors.New("expire is out of range"))
+	}
 	val, err := args.NextString()
 	if err != nil {
 		return "", 0, "", newMissingArgumentError(cmd, "value", err)
@@ -187,10 +194,19 @@ func nextSetOptionArguments(cmd string, args Arguments) (SetOption, error) {
 			}
 			switch argStr {
 			case "EX":
+				if int64(argInt) > math.MaxInt64/int64(time.Second) {
+					return opt, newInvalidArgumentError(cmd, argStr, errors.New("expire is out of range"))
+				}
 				opt.EX = time.Duration(argInt) * time.Second
 			case "PX":
+				if int64(argInt) > math.MaxInt64/int64(time.Millisecond) {
+					return opt, newInvalidArgumentError(cmd, argStr, errors.New("expire is out of range"))
+				}
 				opt.PX = time.Duration(argInt) * time.Millisecond
 			case "EXAT":
+				if int64(argInt) > math.MaxInt64/1000 {
+					return opt, newInvalidArgumentError(cmd, argStr, errors.New("expire is out of range"))
+				}
 				opt.EXAT = time.Unix(int64(argInt), 0)
 			case "PXAT":
 				opt.PXAT = time.UnixMilli(int64(argInt))
@@ -272,6 +288,9 @@ func parseRangeScoreIndex(cmd string, name string, str string) (float64, bool, e
 	rng, err := strconv.ParseFloat(str[offset:], 64)
 	if err != nil {
 		return 0, false, newInvalidArgumentError(cmd, name, err)
+	}
+	if math.IsNaN(rng) {
+		return 0, false, newInvalidArgumentError(cmd, name, errors.New("not a number"))
 	}
 	return rng, exclusive, nil
 }
